@@ -78,8 +78,9 @@ def date(  # noqa: PLR0912 PLR0911
         elif dat.isdigit():
             try:
                 dat = datetime.datetime.fromtimestamp(int(dat))
-            except (ValueError, OverflowError, OSError):
-                # Not a valid timestamp. Input is returned unchanged.
+            except (OverflowError, OSError):
+                # Out of range for the platform, as for an integer below. Input is
+                # returned unchanged.
                 return str(dat)
         else:
             try:
